@@ -1,0 +1,64 @@
+// Copyright 2026 The OWASP Coraza contributors
+// SPDX-License-Identifier: Apache-2.0
+
+//go:build verif
+
+package operators
+
+import (
+	"fmt"
+	"regexp/syntax"
+	"strings"
+
+	"github.com/corazawaf/coraza/v3/experimental/plugins/plugintypes"
+)
+
+// VerifRxParts exposes what newRX attached to an @rx operator: the minimum match length, the
+// prefilter (nil when none was built) and the exact-match literal.
+func VerifRxParts(op plugintypes.Operator) (minLen int, prefilter func(string) bool, exact string, exactCI bool, ok bool) {
+	r, isRx := op.(*rx)
+	if !isRx {
+		return 0, nil, "", false, false
+	}
+	return r.minLen, r.prefilter, r.exactMatch, r.exactMatchCI, true
+}
+
+// VerifRxAST renders the simplified syntax tree of a pattern exactly as prefilterFunc and
+// minMatchLength see it: name[foldcase;args…] with ';' separators.
+func VerifRxAST(pattern string) (string, error) {
+	re, err := syntax.Parse(pattern, syntax.Perl)
+	if err != nil {
+		return "", err
+	}
+	var sb strings.Builder
+	verifAST(&sb, re.Simplify())
+	return sb.String(), nil
+}
+
+func verifAST(sb *strings.Builder, re *syntax.Regexp) {
+	names := map[syntax.Op]string{
+		syntax.OpNoMatch: "nomatch", syntax.OpEmptyMatch: "empty", syntax.OpLiteral: "lit", syntax.OpCharClass: "cc",
+		syntax.OpAnyCharNotNL: "anynl", syntax.OpAnyChar: "any", syntax.OpBeginLine: "bol", syntax.OpEndLine: "eol",
+		syntax.OpBeginText: "bot", syntax.OpEndText: "eot", syntax.OpWordBoundary: "wb", syntax.OpNoWordBoundary: "nwb",
+		syntax.OpCapture: "cap", syntax.OpStar: "star", syntax.OpPlus: "plus", syntax.OpQuest: "quest", syntax.OpRepeat: "rep",
+		syntax.OpConcat: "cat", syntax.OpAlternate: "alt",
+	}
+	f := 0
+	if re.Flags&syntax.FoldCase != 0 {
+		f = 1
+	}
+	fmt.Fprintf(sb, "%s[%d", names[re.Op], f)
+	switch re.Op {
+	case syntax.OpLiteral, syntax.OpCharClass:
+		for _, r := range re.Rune {
+			fmt.Fprintf(sb, ";%d", r)
+		}
+	case syntax.OpRepeat:
+		fmt.Fprintf(sb, ";%d;%d", re.Min, re.Max)
+	}
+	for _, s := range re.Sub {
+		sb.WriteString(";")
+		verifAST(sb, s)
+	}
+	sb.WriteString("]")
+}
